@@ -798,9 +798,23 @@ func (c *Ctx) INC7(rule string) []report.Obligation {
 		return append(out, anchorViolation(rule, "loader.ApplyInclude"))
 	}
 	fns := []*ssa.Function{root}
+	// the env_file list of the include entry: the EnvFile field, or a parameter of a helper that receives it
+	envParams := map[*ssa.Parameter]bool{}
+	isEnvFile := func(v ssa.Value) bool {
+		if pa, ok := v.(*ssa.Parameter); ok {
+			return envParams[pa]
+		}
+		fr, ok := fieldLoad(v)
+		return ok && fr.owner.Field(fr.idx).Name() == "EnvFile"
+	}
 	for _, cs := range callSites(root, func(com *ssa.CallCommon) bool { return true }) {
 		if cal := cs.Common().StaticCallee(); cal != nil && c.P.InModule(cal) && cal.Blocks != nil && strings.HasPrefix(c.P.FuncID(cal), "loader.") && cal.Name() != "loadYamlModel" {
 			fns = append(fns, cal)
+			for i, a := range cs.Common().Args {
+				if i < len(cal.Params) && isEnvFile(a) {
+					envParams[cal.Params[i]] = true
+				}
+			}
 		}
 	}
 	isDirCall := func(v ssa.Value) bool {
@@ -829,8 +843,7 @@ func (c *Ctx) INC7(rule string) []report.Obligation {
 		if bi, isB := call.Call.Value.(*ssa.Builtin); !isB || bi.Name() != "len" {
 			return false
 		}
-		fr, ok := fieldLoad(call.Call.Args[0])
-		if !ok || fr.owner.Field(fr.idx).Name() != "EnvFile" {
+		if !isEnvFile(call.Call.Args[0]) {
 			return false
 		}
 		switch bo.Op {
@@ -867,4 +880,490 @@ func (c *Ctx) INC7(rule string) []report.Obligation {
 		out = append(out, anchorViolation(rule, "an error return of ApplyInclude that depends on IsDir()"))
 	}
 	return out
+}
+
+// ---------------------------------------------------------------------------
+// CLIENV (C17): every entry of package cli that hands a ConfigDetails to the
+// loader has set its Environment field (from the project options) on the way:
+// the project is named, and the model interpolated, with the project
+// environment whichever entry point is used (LoadProject, LoadModel).
+// ---------------------------------------------------------------------------
+
+func (c *Ctx) CLIENV(rule string) []report.Obligation {
+	var out []report.Obligation
+	n := 0
+	for _, fn := range c.P.Funcs {
+		if !strings.HasPrefix(c.P.FuncID(fn), "cli.") {
+			continue
+		}
+		for _, cs := range callSites(fn, func(com *ssa.CallCommon) bool {
+			cal := com.StaticCallee()
+			return cal != nil && strings.HasPrefix(c.P.FuncID(cal), "loader.Load")
+		}) {
+			for _, a := range cs.Common().Args {
+				nt, ok := a.Type().(*types.Named)
+				if !ok || nt.Obj().Name() != "ConfigDetails" {
+					continue
+				}
+				n++
+				key := c.P.FuncID(fn) + " :: the ConfigDetails handed to " + c.P.FuncID(cs.Common().StaticCallee()) + " carries the environment"
+				ld, isLd := a.(*ssa.UnOp)
+				set := false
+				if isLd && ld.Op == token.MUL {
+					for _, b := range fn.Blocks {
+						for _, in := range b.Instrs {
+							st, ok := in.(*ssa.Store)
+							if !ok {
+								continue
+							}
+							fa, ok := st.Addr.(*ssa.FieldAddr)
+							if !ok || fa.X != ld.X {
+								continue
+							}
+							stt := fa.X.Type().Underlying().(*types.Pointer).Elem().Underlying().(*types.Struct)
+							if stt.Field(fa.Field).Name() == "Environment" && !isNilOrConst(st.Val) && prog.InstrDominates(st, cs) {
+								set = true
+							}
+						}
+					}
+				}
+				out = append(out, verdict(set, rule, key, c.P.InstrPos(cs), "its Environment field is stored before the call",
+					"no store to the Environment field of the ConfigDetails precedes the call: this entry point interpolates the model and names the project with an empty environment, unlike its siblings"))
+			}
+		}
+	}
+	c.Stats[rule+".calls"] = n
+	if n == 0 {
+		out = append(out, anchorViolation(rule, "a call from package cli into the loader with a ConfigDetails"))
+	}
+	return out
+}
+
+// ---------------------------------------------------------------------------
+// OMITREQ (C09): a member the schema REQUIRES of an object must be rendered
+// also when it is zero: an `omitempty` tag on a numeric or boolean field drops
+// `soft: 0`, and the rendering no longer validates. The tags apply when the
+// owning type has no marshaller of its own for the format, or when that
+// marshaller hands the value itself (its own type) to the encoder.
+// ---------------------------------------------------------------------------
+
+func (c *Ctx) OMITREQ(rule string) []report.Obligation {
+	var out []report.Obligation
+	d := c.tab()
+	if d.err != nil {
+		return c.tabErr(rule)
+	}
+	n := 0
+	// does the marshaller hand a value of the type's own struct to the encoder / return it?
+	ownType := func(fn *ssa.Function, named string) bool {
+		if fn == nil {
+			return true // no marshaller: the tags apply
+		}
+		is := func(v ssa.Value) bool {
+			v = stripMI(v)
+			t := v.Type()
+			if pt, ok := t.Underlying().(*types.Pointer); ok {
+				t = pt.Elem()
+			}
+			nt, ok := t.(*types.Named)
+			return ok && "types."+nt.Obj().Name() == named
+		}
+		for _, cs := range callSites(fn, func(com *ssa.CallCommon) bool {
+			sn := staticName(com)
+			return strings.HasPrefix(sn, "encoding/json.Marshal") || strings.Contains(sn, "yaml") && strings.HasSuffix(sn, ".Marshal")
+		}) {
+			if len(cs.Common().Args) > 0 && is(cs.Common().Args[0]) {
+				return true
+			}
+		}
+		for _, ret := range returnsOf(fn) {
+			if len(ret.Results) > 0 {
+				if _, isBytes := ret.Results[0].Type().Underlying().(*types.Slice); !isBytes && is(ret.Results[0]) {
+					return true
+				}
+			}
+		}
+		return false
+	}
+	for _, sp := range d.schema.Paths() {
+		node := d.schema.Nodes[sp]
+		if node == nil || len(node.Required) == 0 {
+			continue
+		}
+		mpath := strings.ReplaceAll(sp, ".[]", ".*")
+		parent := d.model.Nodes[mpath]
+		var reqs []string
+		for r := range node.Required {
+			reqs = append(reqs, r)
+		}
+		sort.Strings(reqs)
+		for _, r := range reqs {
+			mn := d.model.Nodes[mpath+"."+r]
+			if mn == nil || mn.Owner == "" {
+				continue
+			}
+			kind := goScalarKind(mn.Type)
+			if kind == "" || kind == "string" {
+				continue // an empty string / list is not a value the schema accepts for a required member anyway
+			}
+			if !c.fieldOmitEmpty(mn.Owner) {
+				continue
+			}
+			n++
+			named := ""
+			var my, mj *ssa.Function
+			if parent != nil {
+				named, my, mj = parent.Named, parent.MarshalY, parent.MarshalJ
+			}
+			var bad1 []string
+			if ownType(mj, named) {
+				bad1 = append(bad1, "JSON")
+			}
+			if ownType(my, named) {
+				bad1 = append(bad1, "YAML")
+			}
+			out = append(out, verdict(len(bad1) == 0, rule, sp+"."+r+" :: a required member is rendered when it is zero", c.P.Pos(token.NoPos),
+				fmt.Sprintf("%s is omitempty, but the marshallers of %s render it explicitly", mn.Owner, named),
+				fmt.Sprintf("the schema requires `%s` at %s, field %s (%s) is tagged omitempty, and the %s rendering of %s goes through the tags: a zero value is dropped and the rendering is rejected on reload (`%s is required`)", r, sp, mn.Owner, kind, strings.Join(bad1, " and "), named, r)))
+		}
+	}
+	c.Stats[rule+".members"] = n
+	if n == 0 {
+		out = append(out, bad(rule, "schema :: required numeric / boolean members tagged omitempty", "", "none found: the rule sees nothing"))
+	}
+	return out
+}
+
+// ---------------------------------------------------------------------------
+// MARSHALALL (C09): a hand-written MarshalYAML / MarshalJSON on a struct is a
+// second description of the type. A field it never looks at cannot be in the
+// rendering: every field that carries a key for the format is read somewhere in
+// the marshaller, or the marshaller hands the struct itself to the encoder.
+// ---------------------------------------------------------------------------
+
+func (c *Ctx) MARSHALALL(rule string) []report.Obligation {
+	var out []report.Obligation
+	n := 0
+	for _, fn := range c.P.Funcs {
+		if fn.Signature.Recv() == nil || (fn.Name() != "MarshalYAML" && fn.Name() != "MarshalJSON") || fn.Blocks == nil {
+			continue
+		}
+		if !strings.HasPrefix(c.P.FuncID(fn), "types.") {
+			continue
+		}
+		format := "yaml"
+		if fn.Name() == "MarshalJSON" {
+			format = "json"
+		}
+		rt := fn.Signature.Recv().Type()
+		if pt, ok := rt.Underlying().(*types.Pointer); ok {
+			rt = pt.Elem()
+		}
+		named, ok := rt.(*types.Named)
+		if !ok {
+			continue
+		}
+		st, ok := named.Underlying().(*types.Struct)
+		if !ok {
+			continue
+		}
+		if !c.modelType(named) {
+			continue // not part of what a Project holds (the legacy Config document)
+		}
+		// fields read: FieldAddr / Field on the receiver (or a copy of it), in the method and the module helpers it
+		// hands the receiver to; whole: the struct itself reaches an encoder or a conversion to a sibling type
+		read := map[int]bool{}
+		whole := false
+		var scan func(f *ssa.Function, recv ssa.Value, depth int)
+		scan = func(f *ssa.Function, recv ssa.Value, depth int) {
+			// the receiver, and what a module function makes of it (a copy the options were applied to)
+			roots := []ssa.Value{recv}
+			for _, b := range f.Blocks {
+				for _, in := range b.Instrs {
+					if call, ok := in.(*ssa.Call); ok && sameStruct(call.Type(), st) {
+						for _, a := range call.Call.Args {
+							if derivesFrom(a, recv, 0) {
+								roots = append(roots, call)
+							}
+						}
+					}
+				}
+			}
+			isRecv := func(v ssa.Value) bool {
+				for _, r := range roots {
+					if derivesFrom(v, r, 0) {
+						return true
+					}
+				}
+				return false
+			}
+			for _, b := range f.Blocks {
+				for _, in := range b.Instrs {
+					switch x := in.(type) {
+					case *ssa.FieldAddr:
+						if isRecv(x.X) && sameStruct(x.X.Type(), st) {
+							for _, u := range *x.Referrers() {
+								if ld, ok := u.(*ssa.UnOp); ok && ld.Op == token.MUL && flowsOut(ld, 0) {
+									read[x.Field] = true
+								}
+								// the address itself handed on (a method of the field's type renders it)
+								if _, isCall := u.(ssa.CallInstruction); isCall {
+									read[x.Field] = true
+								}
+							}
+						}
+					case *ssa.Field:
+						if isRecv(x.X) && sameStruct(x.X.Type(), st) && flowsOut(x, 0) {
+							read[x.Field] = true
+						}
+					case *ssa.ChangeType, *ssa.Convert:
+						// a conversion of the whole struct to a sibling type (type plain T) renders through the tags
+						var src ssa.Value
+						if ct, ok := x.(*ssa.ChangeType); ok {
+							src = ct.X
+						} else {
+							src = x.(*ssa.Convert).X
+						}
+						if isRecv(src) && sameStruct(src.Type(), st) {
+							whole = true
+						}
+					case ssa.CallInstruction:
+						for _, a := range x.Common().Args {
+							av := stripMI(a)
+							if isRecv(av) && sameStruct(av.Type(), st) {
+								cal := x.Common().StaticCallee()
+								if cal != nil && c.P.InModule(cal) && cal.Blocks != nil && depth < 1 && cal != f {
+									for i, p := range cal.Params {
+										if i < len(x.Common().Args) && x.Common().Args[i] == a {
+											scan(cal, p, depth+1)
+										}
+									}
+								} else if cal == nil || !c.P.InModule(cal) {
+									whole = true // handed to a library encoder
+								}
+							}
+						}
+					case *ssa.Return:
+						for _, r := range x.Results {
+							rv := stripMI(r)
+							if isRecv(rv) && sameStruct(rv.Type(), st) {
+								whole = true
+							}
+						}
+					}
+				}
+			}
+		}
+		if len(fn.Params) == 0 {
+			continue
+		}
+		scan(fn, fn.Params[0], 0)
+		for i := 0; i < st.NumFields(); i++ {
+			f := st.Field(i)
+			tag := reflectTag(st.Tag(i), format)
+			if tag == "" || tag == "-" {
+				continue
+			}
+			n++
+			okF := whole || read[i]
+			out = append(out, verdict(okF, rule, c.P.FuncID(fn)+" :: looks at ."+f.Name(), c.P.Pos(fn.Pos()),
+				"the value of the field flows into what the marshaller returns (or the struct itself is handed to the encoder)",
+				"field "+f.Name()+" has the "+format+" key `"+tag+"` but its value never flows into what the hand-written marshaller returns (at most it is tested): whatever it holds is missing from the rendering"))
+		}
+	}
+	c.Stats[rule+".fields"] = n
+	if n == 0 {
+		out = append(out, anchorViolation(rule, "a hand-written marshaller on a struct of package types"))
+	}
+	return out
+}
+
+func sameStruct(t types.Type, st *types.Struct) bool {
+	if pt, ok := t.Underlying().(*types.Pointer); ok {
+		t = pt.Elem()
+	}
+	s2, ok := t.Underlying().(*types.Struct)
+	return ok && s2 == st
+}
+
+func reflectTag(tag, key string) string {
+	for tag != "" {
+		i := strings.Index(tag, key+":\"")
+		if i < 0 {
+			return ""
+		}
+		if i > 0 && tag[i-1] != ' ' {
+			tag = tag[i+1:]
+			continue
+		}
+		rest := tag[i+len(key)+2:]
+		j := strings.Index(rest, "\"")
+		if j < 0 {
+			return ""
+		}
+		name, _, _ := strings.Cut(rest[:j], ",")
+		if name == "" && strings.Contains(rest[:j], "inline") {
+			return "(inline)"
+		}
+		return name
+	}
+	return ""
+}
+
+
+// modelType: the named type occurs in the type of Project, transitively through fields, elements and pointers.
+func (c *Ctx) modelType(t *types.Named) bool {
+	if c.modelTypes == nil {
+		c.modelTypes = map[*types.TypeName]bool{}
+		pk := c.P.PkgByRel["types"]
+		if pk != nil && pk.Types != nil {
+			if obj := pk.Types.Scope().Lookup("Project"); obj != nil {
+				var walk func(t types.Type)
+				walk = func(t types.Type) {
+					switch x := t.(type) {
+					case *types.Named:
+						if c.modelTypes[x.Obj()] {
+							return
+						}
+						c.modelTypes[x.Obj()] = true
+						walk(x.Underlying())
+					case *types.Pointer:
+						walk(x.Elem())
+					case *types.Slice:
+						walk(x.Elem())
+					case *types.Array:
+						walk(x.Elem())
+					case *types.Map:
+						walk(x.Key())
+						walk(x.Elem())
+					case *types.Struct:
+						for i := 0; i < x.NumFields(); i++ {
+							walk(x.Field(i).Type())
+						}
+					}
+				}
+				walk(obj.Type())
+			}
+		}
+	}
+	return c.modelTypes[t.Obj()]
+}
+
+// ---------------------------------------------------------------------------
+// RENDERESC (C09): the loaded model holds `$` where the file said `$$`. A
+// rendering that is to reload to the same model writes `$$` again: somewhere in
+// what Project.MarshalYAML / MarshalJSON reach, a `$` is replaced by `$$`. None
+// does today (open finding): `command: echo $$HOME` renders as `echo $HOME` and
+// reloads as `echo /root`.
+// ---------------------------------------------------------------------------
+
+func (c *Ctx) RENDERESC(rule string) []report.Obligation {
+	var out []report.Obligation
+	for _, id := range []string{"types.(*Project).MarshalYAML", "types.(*Project).MarshalJSON"} {
+		fn := c.P.Func(id)
+		if fn == nil {
+			out = append(out, anchorViolation(rule, id))
+			continue
+		}
+		r := c.P.Reachable([]*ssa.Function{fn})
+		escapes := ""
+		for f := range r.Set {
+			if !c.P.InModule(f) {
+				continue
+			}
+			for _, cs := range callSites(f, func(com *ssa.CallCommon) bool {
+				switch staticName(com) {
+				case "strings.ReplaceAll", "strings.Replace", "strings.NewReplacer":
+					return true
+				}
+				return false
+			}) {
+				var consts []string
+				for _, a := range cs.Common().Args {
+					if k, ok := constStr(a); ok {
+						consts = append(consts, k)
+					}
+					// the variadic pairs of NewReplacer
+					if sl, ok := a.(*ssa.Slice); ok {
+						if al, ok := sl.X.(*ssa.Alloc); ok {
+							for _, ar := range *al.Referrers() {
+								if ia, ok := ar.(*ssa.IndexAddr); ok {
+									for _, rr := range *ia.Referrers() {
+										if st, ok := rr.(*ssa.Store); ok {
+											if k, ok := constStr(st.Val); ok {
+												consts = append(consts, k)
+											}
+										}
+									}
+								}
+							}
+						}
+					}
+				}
+				if contains(consts, "$") && contains(consts, "$$") {
+					escapes = c.P.InstrPos(cs)
+				}
+			}
+		}
+		out = append(out, verdict(escapes != "", rule, id+" :: writes `$$` for a `$` of the model", c.P.Pos(fn.Pos()),
+			"a `$` is replaced by `$$` at "+escapes,
+			"nothing reachable from the renderer replaces `$` by `$$`: a value that holds a literal `$` (written `$$` in the file) is rendered bare and interpolated when the rendering is loaded (`command: echo $$HOME` reloads as `echo /root`)"))
+	}
+	return out
+}
+
+
+// flowsOut: the value ends up in something a marshaller produces: stored, put into a map, returned, handed to a
+// call - not merely compared.
+func flowsOut(v ssa.Value, depth int) bool {
+	if depth > 4 {
+		return false
+	}
+	for _, u := range *v.Referrers() {
+		switch x := u.(type) {
+		case *ssa.MapUpdate:
+			if x.Value == v || x.Key == v {
+				return true
+			}
+		case *ssa.Store:
+			if x.Val == v {
+				return true
+			}
+		case *ssa.Return:
+			return true
+		case ssa.CallInstruction:
+			return true
+		case *ssa.MakeInterface:
+			if flowsOut(x, depth+1) {
+				return true
+			}
+		case *ssa.ChangeType:
+			if flowsOut(x, depth+1) {
+				return true
+			}
+		case *ssa.Convert:
+			if flowsOut(x, depth+1) {
+				return true
+			}
+		case *ssa.Phi:
+			if flowsOut(x, depth+1) {
+				return true
+			}
+		case *ssa.Range:
+			return true
+		case *ssa.Slice:
+			if flowsOut(x, depth+1) {
+				return true
+			}
+		case *ssa.BinOp:
+			// concatenation and arithmetic carry the value on; comparisons do not
+			switch x.Op {
+			case token.ADD, token.SUB, token.MUL, token.QUO:
+				if flowsOut(x, depth+1) {
+					return true
+				}
+			}
+		}
+	}
+	return false
 }
